@@ -187,6 +187,28 @@ def check_axioms(U, sup, eq, rep):
                 viol('ancestor' if want == '1' else 'unrelated-class', idx[b], idx[a])
             else:
                 rep.held(('hier', a, b))
+    # generic instantiations of one head and arity: "not to unrelated classes" - when some argument pair is unrelated in BOTH
+    # directions (per the observed matrix) the instantiations are unrelated whatever variance the checker chose
+    gens = [i for i in nofun if U[i][1]['kind'].startswith('generic')]
+    for i in gens:
+        mi = U[i][1]
+        for j in gens:
+            mj = U[j][1]
+            if i == j or mi['head'] != mj['head'] or len(mi['args']) != len(mj['args']):
+                continue
+            pairs = [(idx.get(x), idx.get(y)) for x, y in zip(mi['args'], mj['args'])]
+            if any(a is None or b is None for a, b in pairs):
+                continue
+            # only argument pairs that are two unrelated *classes* (plain kinds) count: the property does not say how a nullable
+            # argument inside a generic relates (the tree accepts List[Int?] where List[Float] is wanted - observed, not judged)
+            unrelated_at = [k for k, (a, b) in enumerate(pairs) if S(a, b) == '0' and S(b, a) == '0'
+                            and U[a][1]['kind'] == 'plain' and U[b][1]['kind'] == 'plain']
+            if not unrelated_at:
+                continue
+            if S(i, j) == '1':
+                viol('generic-unrelated-argument', i, j)
+            else:
+                rep.held(('generic-unrelated-arg', mi['head'], len(pairs), tuple(unrelated_at)))
     # unions
     for i in nofun:
         m = U[i][1]
